@@ -179,6 +179,25 @@ fn case<G: CurveTag>(bytes: &[u8], col: &mut Collector, large: bool) -> Result<(
             what(format!("op #{}", i)),
         ));
     }
+    // (4b) domain separation is unambiguous: the statement with its randomized closures and the
+    // same statement without them (its first phase alone) are separated differently
+    if shape.closures > 0 && chi.chance(60) {
+        let mut prog1 = prog.clone();
+        prog1.ops.retain(|o| !matches!(o, crate::program::Op::Closure(_)));
+        let p1 = run_prover::<G>(&prog1, &ProveOpts { record: true, ..Default::default() });
+        if p1.proof.is_some() {
+            let seps = |log: &[Event], id: u64| -> Vec<Vec<u8>> { log.iter().filter_map(|e| match e { Event::Append { id: i, label, msg } if *i == id && label == b"dom-sep" => Some(msg.clone()), _ => None }).collect() };
+            let (two, one) = (seps(&p.log, p.main_id), seps(&p1.log, p1.main_id));
+            if !two.is_empty() && two == one {
+                return Err(Failure::new(
+                    "C06:domain-separators-ambiguous",
+                    format!("the prover absorbs the same domain separators {:?} for a statement with randomized closures and for its first phase alone", two.iter().map(|m| String::from_utf8_lossy(m).to_string()).collect::<Vec<_>>()),
+                    what("domain separators".into()),
+                ));
+            }
+            col.class("one-phase-twin-compared");
+        }
+    }
     // (5) the transcripts handed back drive identical follow-up challenges
     if v.accepted() {
         if p.next_challenge.is_none() || p.next_challenge != v.next_challenge {
